@@ -145,8 +145,8 @@ theorem records_step (T : Tables) (w : World) (op : Op) (o : Owner) (ho : o ≠ 
     | inst m =>
       have hm : m ≠ n := by intro h; exact ho (by simp [Op.target, h])
       simp only [step, World.accessiblesOf, World.roots, findInst_instantiate_ne _ _ _ _ _ _ hm, and_self]
-  | setprop i p k v =>
-    have : (step T w (.setprop i p k v)).classes = w.classes ∧ (step T w (.setprop i p k v)).insts = w.insts := by
+  | setprop i p pa k v =>
+    have : (step T w (.setprop i p pa k v)).classes = w.classes ∧ (step T w (.setprop i p pa k v)).insts = w.insts := by
       simp only [step, setprop]
       repeat' split
       all_goals exact ⟨rfl, rfl⟩
@@ -203,7 +203,7 @@ theorem frame_step (T : Tables) (w : World) (op : Op) (r : Ref) (hr : r < w.heap
   cases op with
   | define d => exact (extends_define T w d).get hr
   | inst n c cfg => exact (extends_instantiate T w n c cfg).get hr
-  | setprop i p k v =>
+  | setprop i p pa k v =>
     simp only [step, setprop]
     split
     · rename_i r' hacc
@@ -553,9 +553,9 @@ theorem accAt_set_dt {h : Heap} {rd : Ref} {t : DTree} (hd : h.dtAt rd = some t)
       | dt t0 => rfl
   · exact accAt_congr (getElem?_set_ne' hx)
 
-theorem records_mutation (T : Tables) (w : World) (op : Op) (hop : (∃ i p k v, op = .setprop i p k v) ∨ ∃ i p m, op = .addEnum i p m) :
+theorem records_mutation (T : Tables) (w : World) (op : Op) (hop : (∃ i p pa k v, op = .setprop i p pa k v) ∨ ∃ i p m, op = .addEnum i p m) :
     (step T w op).classes = w.classes ∧ (step T w op).insts = w.insts := by
-  rcases hop with ⟨i, p, k, v, rfl⟩ | ⟨i, p, m, rfl⟩
+  rcases hop with ⟨i, p, pa, k, v, rfl⟩ | ⟨i, p, m, rfl⟩
   · simp only [step, setprop]
     repeat' split
     all_goals exact ⟨rfl, rfl⟩
@@ -578,10 +578,10 @@ theorem reachAcc_after_set {h h' : Heap} {r : Ref} {a' : AccH} (hr' : h'.accAt r
   · subst hx; simp only [if_true]; unfold reachAcc; rw [hr']
   · simp only [hx, if_false]; unfold reachAcc; rw [hother x hx]
 
-theorem preserve_setprop (T : Tables) (w : World) (i p k : Name) (v : PVal) (hb : Bounded w) (hs : Separated w) :
-    Bounded (setprop T w i p k v) ∧ Separated (setprop T w i p k v) := by
-  have hrec := records_mutation T w (.setprop i p k v) (Or.inl ⟨i, p, k, v, rfl⟩)
-  have hframe := fun x hx hn => frame_step T w (.setprop i p k v) x hx hn
+theorem preserve_setprop (T : Tables) (w : World) (i p : Name) (pa : List Nat) (k : Name) (v : PVal) (hb : Bounded w) (hs : Separated w) :
+    Bounded (setprop T w i p pa k v) ∧ Separated (setprop T w i p pa k v) := by
+  have hrec := records_mutation T w (.setprop i p pa k v) (Or.inl ⟨i, p, pa, k, v, rfl⟩)
+  have hframe := fun x hx hn => frame_step T w (.setprop i p pa k v) x hx hn
   simp only [step] at hrec hframe
   apply preserve_of_target_write w _ i (roots_of_records hrec.1 hrec.2) ?_ hframe hb hs
   · -- what the instance reaches afterwards
@@ -1013,8 +1013,8 @@ theorem pureInv_step (T : Tables) (env : Name → Option ClassDecl) (w : World) 
   cases op with
   | define d => exact pureInv_define T env w d hadm hcons hinv
   | inst n c cfg => exact fun m cr h => hinv m cr (by rwa [step, findClass_instantiate] at h)
-  | setprop i p k v =>
-    have := (records_mutation T w (.setprop i p k v) (Or.inl ⟨i, p, k, v, rfl⟩)).1
+  | setprop i p pa k v =>
+    have := (records_mutation T w (.setprop i p pa k v) (Or.inl ⟨i, p, pa, k, v, rfl⟩)).1
     exact fun m cr h => hinv m cr (by simpa only [World.findClass, this] using h)
   | addEnum i p m' =>
     have := (records_mutation T w (.addEnum i p m') (Or.inr ⟨i, p, m', rfl⟩)).1
